@@ -215,11 +215,29 @@ def key_oracle(table, key, cfg, r):
 
 
 GRADIENT_KEY = 'lg'
-OVERRIDE_GRADIENT_KEY = False
-"""OFF: a user snippet under the key `lg` does NOT replace the built-in one -- the gradient shortcut is resolved before the
+OVERRIDE_GRADIENT_KEY = True
+"""ON, listed finding c06:user-override-of-gradient-key: a user snippet under the key `lg` does NOT replace the built-in one -- the gradient shortcut is resolved before the
 table is consulted (expand('lg', {'type': 'stylesheet', 'snippets': {'lg': 'foo-bar:alpha|beta'}}) gives
 'background-image: linear-gradient();').  rand_value_table has always left `lg` out; rand_user_table drew its overriding
 keys from the whole table and so alarmed on the clean tree whenever the draw hit `lg` (about 1 table in 100)."""
+
+
+KEY_GRADIENT = 'c06:user-override-of-gradient-key'
+KEY_AFTER_CALL = 'c06:tabstop-directly-after-call'
+
+
+def listed_class(cfg_json, typed, src=None, tables=()):
+    """The listed finding class a failing case belongs to, or None: the user's table defines the gradient key and
+    that key was typed; the snippet source writes a tabstop directly after the `)` of a call."""
+    sn = dict(cfg_json.get('snippets') or {})
+    for t in tables:
+        sn.update(t or {})
+    if typed == GRADIENT_KEY and GRADIENT_KEY in sn:
+        return KEY_GRADIENT
+    src = src if src is not None else sn.get(typed)
+    if isinstance(src, str) and re.search(r'\)\$\{', src):
+        return KEY_AFTER_CALL
+    return None
 
 
 def as_listed(source, key, cfg, out):
@@ -596,7 +614,7 @@ def run(ctx):
             r2 = su.impl_expand(s, cfg)          # fresh configuration, no shared cache
             bad = apply_check(check, cfg, r2)
             if bad:
-                key = bad.key if isinstance(bad, Finding) else fkey if fkey else 'c06:%s:%s' % (cfg.key(), s)
+                key = bad.key if isinstance(bad, Finding) else fkey if fkey else listed_class(cfg.to_json(), s) or 'c06:%s:%s' % (cfg.key(), s)
                 bad = str(bad)
                 ctx.property_failure(key, 'stylesheet expand(%r) under %s: %s' % (s, cfg.to_json(), bad),
                                      {'input': s, 'config': cfg.to_json(), 'check': list(check[:1]) + [c for c in check[1:] if not isinstance(c, dict)],  # noqa
@@ -735,7 +753,7 @@ def value_stream(ctx, ok, tables):
             fresh = cu.impl_run(k, cu.cfg_user_config(cfg), cfg.tabstop, None)
             bad = value_verdict(cfg, k, src, kind, fresh)
             if bad:
-                key = bad.key if isinstance(bad, Finding) else 'c06:value:%s:%s' % (ck, k)
+                key = bad.key if isinstance(bad, Finding) else listed_class(cfg.to_json(), k, src) or 'c06:value:%s:%s' % (ck, k)
                 ctx.property_failure(key, 'stylesheet expand(%r) under %s: %s' % (k, cfg.to_json(), bad),
                                      {'input': k, 'config': cfg.to_json(), 'check': ['value'], 'impl': repr(fresh[:2])[:300],
                                       'why': str(bad)})
@@ -900,7 +918,7 @@ def layered_stream(ctx, ok, tables):
             r2 = impl_layered(k, cfg, glob, call, None)
             bad = apply_check(check, cfg, r2)
             if bad:
-                key = bad.key if isinstance(bad, Finding) else 'c06:layers:%s:%s:%s' % (shape, cfg.key(), k)
+                key = bad.key if isinstance(bad, Finding) else listed_class(cfg.to_json(), k, None, [call] + [v.get('snippets') for v in (glob or {}).values() if isinstance(v, dict)]) or 'c06:layers:%s:%s:%s' % (shape, cfg.key(), k)
                 ctx.property_failure(key, 'stylesheet expand(%r, %s, global_config=%r): %s' % (
                     k, dict(cfg.to_json(), snippets=call), glob, bad),
                     {'input': k, 'config': dict(cfg.to_json(), snippets=call), 'global_config': glob, 'check': ['layered'],
